@@ -124,6 +124,49 @@ def build(case):
         if fam:
             return M.Bernoulli(**kw), 0, 1, (np.array(case["ps"], dtype=np.float64),)
         return M.Bernoulli(case["p"], **kw), 0, 1, ()
+    if k == "custom":
+        lo, hi = case["lo"], case["hi"]
+        if fam:
+            # logistic location-scale family through user callbacks with two delayed parameters
+            def cdf(x, loc, scale):
+                return 1.0 / (1.0 + math.exp(-max(-700.0, min(700.0, (x - loc) / scale))))
+
+            def ppf(xi, loc, scale):
+                return loc if case.get("ppf") == "loc" else float(case.get("ppf_const", 0.0))
+            a = np.array(case["a"], dtype=np.float64)
+            b = np.array((case["b"] + [1.0] * 8)[:len(case["a"])], dtype=np.float64)
+            return M.CustomModel(cdf, ppf, lo, hi), lo, hi, (a, b)
+        vs = case["table"]   # values of the CDF at the mid points lo - 0.5 + k, k = 0 .. hi - lo + 1
+
+        def cdf(x):
+            kk = int(round(x - (lo - 0.5)))
+            v = vs[max(0, min(len(vs) - 1, kk))]
+            if v == "raise":
+                raise RuntimeError("user callback fails")
+            if v == "str":
+                return "not a number"
+            return v
+
+        def ppf(xi):
+            mode = case.get("ppf", "true")
+            if mode == "true":
+                for kk, v in enumerate(vs):
+                    if isinstance(v, float) and v >= xi:
+                        return lo - 0.5 + kk
+                return hi + 0.5
+            if mode == "raise":
+                raise RuntimeError("user callback fails")
+            return float(case.get("ppf_const", 0.0))
+        return M.CustomModel(cdf, ppf, lo, hi), lo, hi, ()
+    if k == "scipy":
+        import scipy.stats as ss
+        lo, hi = case["lo"], case["hi"]
+        dist = {"norm": ss.norm, "cauchy": ss.cauchy, "laplace": ss.laplace, "logistic": ss.logistic}[case["dist"]]
+        if fam:
+            a = np.array(case["a"], dtype=np.float64)
+            b = np.array((case["b"] + [1.0] * 8)[:len(case["a"])], dtype=np.float64)
+            return M.ScipyModel(dist, lo, hi), lo, hi, (a, b)
+        return M.ScipyModel(dist(case["a"][0], case["b"][0]), lo, hi), lo, hi, ()
     raise AssertionError("unknown kind " + k)
 
 
@@ -153,6 +196,23 @@ def run_case(case):
         return
     label("constructed:" + kind)
     fam = case.get("family", False)
+    if case.get("hostile_callbacks"):
+        # CustomModel cannot look at its callbacks before they are used: a CDF that is not nondecreasing within [0, 1]
+        # is garbage in. Every call must return or raise an ordinary exception (a killed interpreter or a call that
+        # does not return is caught by the driver); results are not judged.
+        syms = np.array(pick_symbols(case, lo, hi, 6), dtype=np.int32)
+        for action in (lambda: AnsCoder().encode_reverse(syms, model), lambda: AnsCoder(np.array([w & 0xFFFFFFFF for w in case.get("words", [])] + [1], dtype=np.uint32)).decode(model, 6),
+                       lambda: RangeEncoder().encode(syms, model), lambda: RangeDecoder(np.array([w & 0xFFFFFFFF for w in case.get("words", [])] + [7], dtype=np.uint32)).decode(model, 6),
+                       lambda: constriction.stream.chain.ChainCoder(np.array([w & 0xFFFFFFFF for w in case.get("words", [])] + [1, 2, 3], dtype=np.uint32), False, True).decode(model, 3)):
+            try:
+                action()
+                label("hostile_callbacks:returned")
+            except BaseException as e:  # noqa: BLE001
+                if not clean_failure(e):
+                    raise
+                label("hostile_callbacks:" + type(e).__name__)
+        label("exercised:" + kind)
+        return
     nparam = len(params[0]) if fam else None
     if fam and nparam == 0:
         return
@@ -451,7 +511,43 @@ def bernoulli_case(draw):
     return {"kind": "bernoulli", "family": False, "perfect": draw(flag), "p": draw(p), "offs": draw(offs), "words": draw(words)}
 
 
-STRATS = [("categorical", categorical_case(), 4), ("uniform", uniform_case(), 1), ("quantized", quantized_case(), 3),
+@st.composite
+def custom_case(draw):
+    lo = draw(st.integers(-30, 10))
+    hi = lo + draw(st.integers(1, 40))
+    common = {"kind": "custom", "lo": lo, "hi": hi, "offs": draw(offs), "words": draw(words)}
+    if draw(st.integers(0, 3)) == 0:
+        n = draw(st.integers(1, 5))
+        return dict(common, family=True, expect_valid=True, a=draw(st.lists(st.floats(lo - 5.0, hi + 5.0), min_size=n, max_size=n)),
+                    b=draw(st.lists(st.floats(0.05, 20.0), min_size=n, max_size=n)), ppf=draw(st.sampled_from(["loc", "const"])),
+                    ppf_const=draw(st.floats(-1e6, 1e6)))
+    npts = hi - lo + 2
+    if draw(st.booleans()):
+        # a valid CDF: nondecreasing values within [0, 1] (flat stretches and jumps included)
+        incs = draw(st.lists(st.one_of(st.just(0.0), st.floats(0.0, 1.0)), min_size=npts, max_size=npts))
+        tot = sum(incs) or 1.0
+        scale = draw(st.sampled_from([1.0, 1.0, 0.5, 1e-3]))
+        vs, acc = [], 0.0
+        for x in incs:
+            acc += x
+            vs.append(min(1.0, scale * acc / tot))
+        return dict(common, family=False, expect_valid=True, table=vs, ppf=draw(st.sampled_from(["true", "const"])), ppf_const=draw(st.floats(-1e6, 1e6)))
+    hv = st.one_of(st.floats(0.0, 1.0), st.sampled_from([float("nan"), float("inf"), float("-inf"), -0.5, 1.5, 2.0, -1e300, 1e300, "raise", "str"]))
+    return dict(common, family=False, hostile_callbacks=True, table=draw(st.lists(hv, min_size=npts, max_size=npts)),
+                ppf=draw(st.sampled_from(["true", "const", "raise"])), ppf_const=draw(st.one_of(st.floats(-1e6, 1e6), st.sampled_from([float("nan"), float("inf"), -1e300]))))
+
+
+@st.composite
+def scipy_case(draw):
+    lo = draw(st.integers(-30, 10))
+    hi = lo + draw(st.integers(1, 40))
+    n = draw(st.integers(1, 4))
+    return {"kind": "scipy", "family": draw(st.booleans()), "expect_valid": True, "dist": draw(st.sampled_from(["norm", "cauchy", "laplace", "logistic"])), "lo": lo, "hi": hi,
+            "a": draw(st.lists(st.floats(lo - 5.0, hi + 5.0), min_size=n, max_size=n)), "b": draw(st.lists(st.floats(0.05, 20.0), min_size=n, max_size=n)),
+            "offs": draw(offs), "words": draw(words)}
+
+
+STRATS = [("custom", custom_case(), 2), ("scipy", scipy_case(), 1), ("categorical", categorical_case(), 4), ("uniform", uniform_case(), 1), ("quantized", quantized_case(), 3),
           ("binomial", binomial_case(), 1), ("bernoulli", bernoulli_case(), 1)]
 
 failures = []
